@@ -28,6 +28,8 @@ CONFIG = {
 
 def generate(rng, tier):
     env = gen.gen_env(rng)
+    if rng.random() < 0.15:
+        env["process_model"] = "session"  # all commands of the run in one long-lived simulated process
     env["read_profile"] = rng.choice(["full", "halves", "ragged"])
     nested = rng.random() < 0.5
     tree = {}
@@ -37,6 +39,12 @@ def generate(rng, tier):
     if nested:
         tree["N"] = {"t": "d"}
         tree["N/n.bin"] = {"t": "f", "c": gen.unique_content(rng)}
+        if rng.random() < 0.5:
+            # the same history-relative name in the root history, in N and in a sibling history S
+            same = rng.choice(names)
+            tree["N/" + same] = {"t": "f", "c": gen.unique_content(rng)}
+            tree["S"] = {"t": "d"}
+            tree["S/" + same] = {"t": "f", "c": gen.unique_content(rng)}
         if rng.random() < 0.3:
             tree["N/M"] = {"t": "d"}
             tree["N/M/m.bin"] = {"t": "f", "c": gen.unique_content(rng)}
@@ -47,10 +55,18 @@ def generate(rng, tier):
         if "N/M" in tree and rng.random() < 0.7:
             ops.append(scen.cmd("create", "@R/N/M", *gen.fmt_args(gen.pick_formats(rng, 1, 2))))
         ops.append(scen.cmd("create", "@R/N", *gen.fmt_args(gen.pick_formats(rng, 1, 2))))
+        if "S" in tree and rng.random() < 0.7:
+            ops.append(scen.cmd("create", "@R/S", *gen.fmt_args(gen.pick_formats(rng, 1, 2))))
+    late_new = None
     pool = list(observe.FORMATS) if rng.random() < 0.5 else rng.sample(observe.FORMATS, 3)
     n = rng.randint(2, 6 if tier == "thorough" else 5)
     first_fmts = None
     for g in range(n):
+        if g > 0 and nested and rng.random() < 0.2:
+            # a new file appears in one history under a name that is already recorded in another
+            newf = rng.choice(["N/", "S/"] if "S" in tree else ["N/"]) + rng.choice(names + ["n.bin"])
+            if newf not in tree:
+                ops.append({"op": "write", "path": newf, "c": gen.unique_content(rng), "fault": "add_file"})
         if g > 0:
             r = rng.random()
             if r < 0.3:
